@@ -12,7 +12,9 @@ from .termalg import NONE, DictV, Key, ListV, Raised, Rec, TermAlg, TupV, Undeci
 PT = "PolyhedralTerm"
 
 
-def _eq(a: Rat, b: Rat) -> bool:
+def _eq(a, b) -> bool:
+    if not isinstance(a, Rat) or not isinstance(b, Rat):
+        return False
     return a.equals(b)
 
 
